@@ -55,10 +55,12 @@ def combos(tier):
                 out.append((spec, "Symmetric", ctl, "Simplified"))
             out.append((spec, "Standard", "Exact", "Full"))
     else:
-        for spec in specs + [G.core_specs()[1]]:
+        for si_, spec in enumerate(specs + [G.core_specs()[1]]):
             for ss in R.STEP_SOLVERS:
                 for ctl in R.CONTROLS:
-                    for nt in ("Simplified", "Full", "ActiveSet"):
+                    for ni_, nt in enumerate(("Simplified", "Full", "ActiveSet")):
+                        if (si_ + ni_) % 2 == 1:
+                            continue  # half of the (spec, Newton type) table (bounds the tier)
                         out.append((spec, ss, ctl, nt))
     return out
 
